@@ -31,6 +31,10 @@ type Case struct {
 	Route  string  `json:"route"`
 	Inject int     `json:"inject"` // -1 = none, otherwise index of the coordinate slot to spoil (or append position)
 	BadLen int     `json:"badLen"`
+	// a second (and third) wrong-length coordinate right after the first one, so that
+	// the wrong lengths may compensate each other within one line or ring; 0 = none
+	BadLen2 int `json:"badLen2,omitempty"`
+	BadLen3 int `json:"badLen3,omitempty"`
 }
 
 var allLayouts = []geom.Layout{geom.XY, geom.XYZ, geom.XYM, geom.XYZM, geom.Layout(5), geom.Layout(6), geom.Layout(7), geom.Layout(9), geom.NoLayout}
@@ -57,6 +61,23 @@ func genCase(t *rapid.T) Case {
 		}
 		c.BadLen = rapid.SampledFrom(lens).Draw(t, "badlen")
 		c.Inject = rapid.IntRange(0, 40).Draw(t, "slot")
+		if stride > 0 {
+			switch rapid.IntRange(0, 3).Draw(t, "more") {
+			case 1: // compensating pair: the two lengths sum to two strides
+				if d := 2*stride - c.BadLen; d > 0 && d != stride {
+					c.BadLen2 = d
+				}
+			case 2: // compensating triple
+				if d := 3*stride - c.BadLen - 1; d > 0 && d != stride {
+					c.BadLen2, c.BadLen3 = 1, d
+					if stride == 1 {
+						c.BadLen3 = 0
+					}
+				}
+			case 3:
+				c.BadLen2 = rapid.SampledFrom(lens).Draw(t, "badlen2")
+			}
+		}
 	}
 	return c
 }
@@ -71,11 +92,18 @@ func bad(n int) []model.F {
 
 // spoil returns a copy of g with one coordinate replaced by (or, if g has none,
 // extended with) a coordinate of the wrong length.
-func spoil(g *model.G, slot, n int) *model.G {
+func spoil(g *model.G, slot, n int, more ...int) *model.G {
 	s := g.Clone()
 	slots := s.CoordSlots(false)
 	if len(slots) > 0 {
-		*slots[slot%len(slots)] = bad(n)
+		k := slot % len(slots)
+		*slots[k] = bad(n)
+		// further wrong-length coordinates in the slots that follow (traversal order)
+		for i, m := range more {
+			if m > 0 && k+1+i < len(slots) {
+				*slots[k+1+i] = bad(m)
+			}
+		}
 		return s
 	}
 	switch s.Kind {
@@ -531,7 +559,7 @@ func prop(c Case) error {
 		return fmt.Errorf("New%s(%v): %v", g.Kind, g.Lay(), err)
 	}
 	if c.Inject >= 0 {
-		sp := spoil(g, c.Inject, c.BadLen)
+		sp := spoil(g, c.Inject, c.BadLen, c.BadLen2, c.BadLen3)
 		r := newEmpty(g.Kind, g.Lay())
 		got, err := setCoords(r, sp)
 		var sm geom.ErrStrideMismatch
